@@ -15,6 +15,8 @@ C10 line-protocol driver.  ops:
   trunc <int> <size> <signed>       truncateIntValue
   minmax <bits> <unsigned>          getMinMaxValues
   const <int> <unsigned> <size> <bits|-1>   literal branch of valueFlowSetConstantValue
+  lit <sign> <base> <upper> <hexdigits> <hexsuffix>   SPEC: well-formedness, spelling and value of a literal
+  clit <kind> <elem>*               SPEC: well-formedness, spelling and value of a character literal
   plat <name>                       platform record (generated table)
   sizeof <name> <ctype>             ValueType::getSizeOf / bits
 -/
@@ -40,6 +42,37 @@ def ctypeOf : String → Option CType
   | "bool" => some .bool | "char" => some .char | "short" => some .short | "wchar" => some .wchar | "int" => some .int
   | "long" => some .long | "longlong" => some .longlong | "float" => some .float | "double" => some .double
   | "longdouble" => some .longdouble | "pointer" => some .pointer | _ => none
+
+def baseOf : String → Option Base
+  | "d" => some .dec | "x" => some .hex | "o" => some .oct | "b" => some .bin | _ => none
+
+def signOf : String → Option (Option Bool)
+  | "-" => some none | "p" => some (some false) | "m" => some (some true) | _ => none
+
+def kindOf : String → Option Kind
+  | "n" => some .narrow | "8" => some .utf8 | "16" => some .utf16 | "w" => some .wide | _ => none
+
+def elemOf (f : String) : Option CElem :=
+  match f.splitOn ":" with
+  | [t, h] =>
+    match fromHex h with
+    | some s =>
+      match t, s with
+      | "p", [c] => some (.plain c)
+      | "s", [c] => some (.simple c)
+      | "o", ds => some (.oct ds)
+      | "x", ds => some (.hex ds)
+      | "u", ds => some (.ucn4 ds)
+      | "U", ds => some (.ucn8 ds)
+      | _, _ => none
+    | none => none
+  | _ => none
+
+def elemsOf : List String → Option (List CElem)
+  | [] => some []
+  | f :: r => match elemOf f, elemsOf r with
+    | some e, some es => some (e :: es)
+    | _, _ => none
 
 def findPlat (n : String) : Option Platform := Cppcheck.Gen.Platforms.all.find? (·.name == n)
 
@@ -94,6 +127,18 @@ def step (line : String) : String :=
       | some r => toString r
       | none => "novalue"
     | _, _, _ => "bad-op"
+  | ["lit", sg, bs, up, dh, sh] =>
+    match signOf sg, baseOf bs, fromHex dh, fromHex sh with
+    | some sg, some bs, some ds, some suf =>
+      let l : Lit := ⟨sg, bs, up == "1", ds, suf⟩
+      s!"wf={b l.WF} canon={b l.canonical} render={toHex (render l)} value={l.value} mag={l.magnitude}"
+    | _, _, _, _ => "bad-op"
+  | "clit" :: k :: es =>
+    match kindOf k, elemsOf es with
+    | some k, some es =>
+      let c : CharLit := ⟨k, es⟩
+      s!"wf={b c.WF} q={b (hex0x c.elems)} render={toHex c.render} value={c.value}"
+    | _, _ => "bad-op"
   | ["plat", n] =>
     match findPlat n with
     | some p => platStr p
